@@ -28,7 +28,7 @@ RULE = ("one case = EigenSolve configuration (dense/sparse, standard/generalised
         "changed matrices (cached shift-invert solver / flags reused) or a sparse solve (start-vector injection fired)")
 PROBES = ["sigma_inside_spectrum", "singular_B_on_constrained_dofs", "solver_reuse_3_matrices", "custom_sorting", "complex_hermitian",
           "general_complex_spectrum", "adjoint_cycle_between_responses", "sparse_eigvec_seed", "two_instances_interleaved",
-          "closest_to_sigma_compared", "dense_full_spectrum_compared", "exact_zero_mean_eigenvector", "nonsymmetric_positive_definite_B", "default_nmodes"]
+          "closest_to_sigma_compared", "dense_full_spectrum_compared", "exact_zero_mean_eigenvector", "nonsymmetric_positive_definite_B", "default_nmodes", "fortran_ordered_input"]
 FAULT_KINDS = ["arpack_start_vector_varied"]
 COMPONENTS = {"real": ["pymoto.EigenSolve", "pymoto.solvers.auto_determine_solver / SolverSparseLU (shift-invert)",
                        "pymoto.AssembleStiffness / AssembleMass (FE pencils)", "scipy ARPACK (eigsh/eigs), LAPACK (eigh/eig)"],
@@ -84,7 +84,8 @@ def gen(rng, idx, tier):
     return dict(storage=storage, cls=cls, n=n, gen=gen_, nmodes=int(rng.integers(1, 5)),
                 sigma=str(rng.choice(["none", "none", "zero", "inside", "below"])), sort=str(rng.choice(["default", "default"] + SORTS)),
                 flag=bool(rng.random() < 0.3), fe=dict(nx=int(rng.integers(4, 6)), ny=int(rng.integers(3, 5)), bc=str(rng.choice(["left", "bottom"]))),
-                nobj=nobj, a0=int(rng.integers(1 << 30)), bskew=bool(rng.random() < 0.25), ops=ops)
+                nobj=nobj, a0=int(rng.integers(1 << 30)), bskew=bool(rng.random() < 0.25), ops=ops,
+                layout=str(rng.choice(["C", "C", "F", "T"])))
 
 
 def enumerated_count(tier):
@@ -193,6 +194,17 @@ class Inst:
                 self.B = G.make_matrix(dict(n=n, cls="hpd" if self.cplx else "spd", cplx=self.cplx, sparse=sp, seed=self.a_seed + 3,
                                             pattern="banded"))
             self.bc = None
+        lay = c.get("layout", "C")
+        if not self.sparse and lay != "C":
+            # the caller's arrays may be Fortran-ordered (e.g. from scipy.io.loadmat) or transposed views: LAPACK works on those in place
+            # when allowed to overwrite its arguments
+            conv = (lambda M: np.asfortranarray(M)) if lay == "F" else (lambda M: np.ascontiguousarray(M.T).T)
+            self.A = conv(self.A)
+            if isinstance(self.B, np.ndarray):
+                self.B = conv(self.B)
+        # the oracle works on private copies; the signals hold the originals
+        self.A0 = self.A.copy()
+        self.B0 = None if self.B is None else self.B.copy()
         self.sA.state = self.A
         if self.B is not None:
             self.sB.state = self.B
@@ -218,8 +230,8 @@ class Inst:
         self.mod = pym.EigenSolve(ins, [self.sW, self.sQ], **kw)
 
     def ref_spectrum(self):
-        Ad = G.todense(self.A)
-        Bd = None if self.B is None else G.todense(self.B)
+        Ad = G.todense(self.A0)
+        Bd = None if self.B0 is None else G.todense(self.B0)
         if self.bc is not None:
             keep = np.setdiff1d(np.arange(Ad.shape[0]), self.bc)
             lam = sla.eigvalsh(Ad[np.ix_(keep, keep)], Bd[np.ix_(keep, keep)])
@@ -263,7 +275,8 @@ def miss_features(W, reff, sig, k, nfinite, scale):
         if len(want) == 1 and len(extra) == 1:
             dm, de = abs(want[0] - sig), abs(extra[0] - sig)
             nxt = reff[order[k]]
-            if abs(extra[0] - nxt) <= 1e-7 * scale and np.real(want[0] - sig) * np.real(extra[0] - sig) < 0 and (de - dm) < 1e-2 * de:
+            # (the substitute is the next-closest value, or tied with it: complex-conjugate pairs are equally far)
+            if de <= abs(nxt - sig) + 1e-7 * scale and np.real(want[0] - sig) * np.real(extra[0] - sig) < 0 and (de - dm) < 1e-2 * de:
                 feats.append("one_near_tie_across_shift")
     return feats
 
@@ -350,9 +363,17 @@ def run(case):
         if I.nset >= 3 and I.sparse:
             probe("solver_reuse_3_matrices")
         W, Q = np.asarray(I.sW.state), np.asarray(I.sQ.state)
-        Ad = G.todense(I.A)
+        Ad = G.todense(I.A0)
         n = Ad.shape[0]
-        Bd = np.eye(n) if I.B is None else G.todense(I.B)
+        Bd = np.eye(n) if I.B0 is None else G.todense(I.B0)
+        if case.get("layout", "C") != "C" and not I.sparse:
+            probe("fortran_ordered_input")
+        mut = [nm for nm, sg, ref in (("A", I.sA, I.A0), ("B", I.sB, I.B0)) if ref is not None and
+               not (np.array_equal(G.todense(sg.state), G.todense(ref)))]
+        if mut:
+            viol("input-mutated", f"response() #{I.nresp}: the state of input signal(s) {mut} was modified by the module "
+                 f"(the returned pairs belong to a matrix the caller no longer has)", at, feats=[f"layout={case.get('layout', 'C')}"])
+            break
         k = W.size
         if I.cplx and I.herm:
             probe("complex_hermitian")
